@@ -32,6 +32,7 @@ def dispatch (ws : List String) : String :=
     else if e == "adv" then H3.Drv.C06.handle ws
     else if e == "set" then H3.Drv.C13.handle ws
     else if e == "cell" then H3.Drv.C05.handle ws
+    else if e == "cellmv" then H3.Drv.C05.handleMv ws
     else if e == "quinn" then H3.Drv.C17.handle ws
     else if e == "e2e" then H3.Drv.C01.handle ws
     else if e == "hdr" then H3.Drv.C12.handle ws
